@@ -15,6 +15,7 @@ RULE = ('(a) all 2048 SecurityIssues flag combinations: causes_signature_verify_
         'per family) x expired/valid x revoked/not; histories on one key object (verify, merge a newer self-signature that flips the expiry state, verify again, compare with a fresh load); x 3 hashes (SHA-256, SHA-1, MD5) x 5 subject kinds (detached document, own user id, third-'
         'party user id, whole own key = several signatures, message) x {all correct, each single signature wrong}. Non-trivial: scenario with an '
         'expired key or a wrong signature or >= 2 signatures; distinct by the scenario tuple. The domain is finite and enumerated completely.')
+RULE += ' Further subjects: a document signed by the signing subkey of the (expired) certificate; later attestations by the key on its user ids; a key expiration time of zero (= never); wrong signatures also with out-of-range integers.'
 ASSUMPTIONS = ['expiry is the only disqualifying key condition reachable through the public API today (self-signature verification is stubbed, '
                'there is no "disabled" flag source)', 'signatures issued by a subkey of an expired primary are not asserted (PGPy evaluates the '
                'issuing component; the statement does not say which component\'s expiry counts)', 'keys and signatures are made by refpgp so that '
